@@ -1,0 +1,9 @@
+//go:build verif
+
+// Verification hook for C19 (compiled only with -tags verif). Add-only.
+
+package codec
+
+// VerifC19HasFastpath reports whether the generated fast-path functions are compiled in
+// (false under the build tag codec.notfastpath).
+func VerifC19HasFastpath() bool { return fastpathEnabled }
